@@ -713,8 +713,8 @@ func (cs crashsim) Shrinks(c *Case) []*Case {
 func init() {
 	cs := crashsim{}
 	real := "real: all of bbolt (tag verif), real file + mmap on tmpfs, real recovery Open/Check/commit on every crash image; simulated: durability (shadow disk fed by the pwrite/fdatasync/truncate/fsync hooks decides what survives), crash point, persisted subset of unsynced units, map iteration order"
-	register(&Info{Prop: "C01", Engine: cs, Level: "fault_enumeration", QuickS: 60, ThoroughS: 900, RealStub: real,
-		Rule:   "a seeded history is executed once while the shadow disk logs every I/O call; evaluations = crash states = (crash point after every I/O call and at tape-chosen unit boundaries inside writes) × (persisted subset of the not-yet-synced units: all 2^n subsets when n is small, else none/all/each-one-missing/each-one-alone/prefixes/reverse prefixes/last-write-only/random 10-50-90%). Each state: decoder picks the winning meta, txid must be the acknowledged or the in-flight one, content == that model version, accounting clean, then real Open + dump + Tx.Check + follow-up commit. distinct_nontrivial = distinct crash images (hash) that had at least one unsynced unit at the crash point",
+	register(&Info{Prop: "C01", Engine: altEngine{[]Engine{cs, cs, cs, schedsim{}}}, Level: "fault_enumeration", QuickS: 60, ThoroughS: 900, RealStub: real,
+		Rule:   "a seeded history is executed once while the shadow disk logs every I/O call; evaluations = crash states = (crash point after every I/O call and at tape-chosen unit boundaries inside writes) × (persisted subset of the not-yet-synced units: all 2^n subsets when n is small, else none/all/each-one-missing/each-one-alone/prefixes/reverse prefixes/last-write-only/random 10-50-90%). Each state: decoder picks the winning meta, txid must be the acknowledged or the in-flight one, content == that model version, accounting clean, then real Open + dump + Tx.Check + follow-up commit. distinct_nontrivial = distinct crash images (hash) that had at least one unsynced unit at the crash point. Every fourth run index is the concurrent arm: 2-3 writer tasks queueing for the writer lock plus readers run under the token scheduler while the shadow disk records the I/O of the whole run; crash states are built from that log and each must recover to the newest commit that had returned to its caller or to the one in flight, with exact accounting",
 		Assume: []string{"POSIX durability: nothing is durable before a successful fdatasync/fsync; unsynced units persist in any subset, each unit atomically", "unit size is a swarm knob (8..4096 bytes)", "NoSync mode and crashes during creation of a brand-new file are excluded (README caveats)", "crash points are enumerated per history; histories and large subsets are sampled"}})
 	register(&Info{Prop: "C06", Engine: altEngine{[]Engine{cs, schedsim{}}}, Level: "exploration", QuickS: 45, ThoroughS: 600, RealStub: real,
 		Rule:   "one evaluation = one seeded history (writers, held readers of any age, rollbacks, reopenings); every pwrite issued by bbolt is intercepted before it happens and its page range intersected with the page sets (computed by dec/ at each commit) of the newest committed version, of every open reader's version, and the newest meta slot. distinct = distinct (final content hash, I/O log length) among histories with at least one commit",
